@@ -556,8 +556,10 @@ def build(tier, rng):
             for arg in (5, None, 1.5):
                 g.case((mname, fn.__name__, "type", repr(arg)))
                 o = outcome(fn, arg)
-                g.check(o[0] == "exc" and o[1] == "TypeError", "helpers:wrong-type-not-typeerror", "wrong argument type not refused with TypeError", {"module": mname, "fn": fn.__name__, "arg": repr(arg), "outcome": repr(o)})
+                g.check(o[0] == "exc", "helpers:wrong-type-accepted", "wrong argument type accepted (the property does not fix the exception class for wrong types)", {"module": mname, "fn": fn.__name__, "arg": repr(arg), "outcome": repr(o)})
             # characters outside the alphabet: must be refused with ValueError (never ignored)
+            fixed = [b"ab!!cd", b"ab!d", b"!!abcd", b"abcd!!!!", b"ab~d", b"a b"]  # fixed witnesses first: reported keys do not depend on the seed
+            cands = list(fixed)
             for ln in (2, 3, 4, 6, 7, 8, 9):
                 for pos in range(ln):
                     for c in foreign:
@@ -566,18 +568,19 @@ def build(tier, rng):
                             t[pos] = c
                             if extra:
                                 t.insert(rng.randrange(ln + 1), c)
-                            t = bytes(t)
-                            if len(t) % 4 == 1:
-                                continue
-                            g.case((mname, fn.__name__, "foreign", t))
-                            o = outcome(fn, t)
-                            w = {"module": mname, "fn": fn.__name__, "text": repr(t), "outcome": repr(o)}
-                            if o[0] == "ok":
-                                g.fail("b64s_decode:foreign-chars-ignored", "text with characters outside the alphabet is decoded (the characters are silently skipped) instead of refused", w)
-                            elif o[1] == "TypeError":
-                                g.fail("b64s_decode:foreign-char-typeerror", "text with a character outside the alphabet raises TypeError, not ValueError", w)
-                            else:
-                                g.check(is_value_error(o), f"{short}:{fn.__name__}:foreign", "character outside the alphabet not refused with ValueError", w)
+                            cands.append(bytes(t))
+            for t in cands:
+                if len(t) % 4 == 1:
+                    continue
+                g.case((mname, fn.__name__, "foreign", t))
+                o = outcome(fn, t)
+                w = {"module": mname, "fn": fn.__name__, "text": repr(t), "outcome": repr(o)}
+                if o[0] == "ok":
+                    g.fail("b64s_decode:foreign-chars-ignored", "text with characters outside the alphabet is decoded (the characters are silently skipped) instead of refused", w)
+                elif o[1] == "TypeError":
+                    g.fail("b64s_decode:foreign-char-typeerror", "text with a character outside the alphabet raises TypeError, not ValueError", w)
+                else:
+                    g.check(is_value_error(o), f"{short}:{fn.__name__}:foreign", "character outside the alphabet not refused with ValueError", w)
     groups.append(g.done())
 
     # ---- base32 ---------------------------------------------------------------------------------------
@@ -628,7 +631,7 @@ def build(tier, rng):
     for arg in (5, None):
         g.case(("type", repr(arg)))
         o = outcome(B.b32decode, arg)
-        g.check(o[0] == "exc" and o[1] == "TypeError", "helpers:wrong-type-not-typeerror", "wrong argument type not refused with TypeError", {"module": "passlib.utils.binary", "fn": "b32decode", "arg": repr(arg), "outcome": repr(o)})
+        g.check(o[0] == "exc", "helpers:wrong-type-accepted", "wrong argument type accepted (the property does not fix the exception class for wrong types)", {"module": "passlib.utils.binary", "fn": "b32decode", "arg": repr(arg), "outcome": repr(o)})
     for arg in ("x", None, 5):
         o = outcome(B.b32encode, arg)
         g.check(o[0] == "exc" and o[1] == "TypeError", "b32encode:type", "non-bytes source not refused with TypeError", {"arg": repr(arg), "outcome": repr(o)})
